@@ -78,17 +78,20 @@ class C13(Harness):
 
             ov["statsmodels.tsa.seasonal"] = types.SimpleNamespace(seasonal_decompose=seasonal_decompose)
         if ck == "boxcox":
-            def boxcox(x, lmbda):
-                W = holder[kind]["W"]
-                return W.np.array([self._bc(W, v, lmbda) for v in L(x)])
-
-            def inv_boxcox(x, lmbda):
-                W = holder[kind]["W"]
-                return W.np.array([W.uf("inv_boxcox", [v, lmbda], "rr>r") for v in L(x)])
-
             def brent(func, brack=None, args=()):
                 # the optimum depends on the criterion being optimised (likelihood vs probability-plot correlation)
                 return holder[kind]["lam"] if "mle" in getattr(func, "__name__", "mle") else holder[kind]["lam2"]
+
+            if kind == "sym":
+                def boxcox(x, lmbda):
+                    W = holder[kind]["W"]
+                    return W.np.array([self._bc(W, v, lmbda) for v in L(x)])
+
+                def inv_boxcox(x, lmbda):
+                    W = holder[kind]["W"]
+                    return W.np.array([self._ibc(W, v, lmbda) for v in L(x)])
+            else:  # replays and trace validation use scipy's real Box-Cox pair (only the optimiser is pinned)
+                from scipy.special import boxcox, inv_boxcox
 
             ov["scipy.special"] = types.SimpleNamespace(boxcox=boxcox, inv_boxcox=inv_boxcox)
             ov["scipy"] = types.SimpleNamespace(optimize=types.SimpleNamespace(brent=brent, fminbound=brent), special=types.SimpleNamespace(boxcox=boxcox, inv_boxcox=inv_boxcox), stats=None)
@@ -101,16 +104,36 @@ class C13(Harness):
             ov["sklearn.preprocessing"] = types.SimpleNamespace(PolynomialFeatures=msk.PolynomialFeatures)
         return ov or None
 
-    def _bc(self, W, v, lam):
-        r = W.uf("boxcox", [v, lam], "rr>r")
-        if W.kind == "sym":
-            from ..symx import Ctx, unwrap
+    @staticmethod
+    def _axiom(ax):
+        from ..symx import Ctx, unwrap
 
-            c = Ctx.cur
-            ax = W.uf("inv_boxcox", [r, lam], "rr>r") == v
-            c.add(unwrap(ax)) if not isinstance(ax, bool) else None
-            c._model = None
+        if not isinstance(ax, bool):
+            Ctx.cur.add(unwrap(ax))
+            Ctx.cur._model = None
+
+    def _bc(self, W, v, lam):
+        """symbolic Box-Cox: an uninterpreted value r with its definition as ground facts over the engine's log / exp pair
+        (lam != 0: lam*r + 1 = exp(lam*log v);  lam == 0: r = log v) and with inv_boxcox(r, lam) = v"""
+        r = W.uf("boxcox", [v, lam], "rr>r")
+        self._axiom(W.uf("inv_boxcox", [r, lam], "rr>r") == v)
+        lg = W.np.log(v)
+        if lam != 0:
+            self._axiom(lam * r + 1 == W.np.exp(lam * lg))
+        else:
+            self._axiom(r == lg)
         return r
+
+    def _ibc(self, W, y, lam):
+        """symbolic inverse: uninterpreted, with lam != 0: log(x) * lam = log(lam*y + 1) where lam*y + 1 > 0;  lam == 0: x = exp(y)"""
+        x = W.uf("inv_boxcox", [y, lam], "rr>r")
+        if lam != 0:
+            if lam * y + 1 > 0:
+                self._axiom(W.np.log(x) * lam == W.np.log(lam * y + 1))
+                self._axiom(x > 0)
+        else:
+            self._axiom(x == W.np.exp(y))
+        return x
 
     # ------------------------------------------------------------------
     def inputs(self, ctx, cell):
@@ -166,6 +189,8 @@ class C13(Harness):
             if k == "boxcox":
                 inp["lam"] = ctx.fresh_real("lam")
                 inp["lam2"] = ctx.fresh_real("lam2")
+                for l_ in (inp["lam"], inp["lam2"]):  # the optimiser's bracket; larger exponents only test float range
+                    ctx.assume((l_ >= -2) & (l_ <= 2))
                 inp["method"] = "pearsonr" if bool(ctx.fresh_bool("pearsonr")) else "mle"
             if k == "passthrough":
                 inp["passthrough"] = bool(ctx.fresh_bool("passthrough"))
